@@ -561,44 +561,7 @@ func c03Formulas(c *Ctx) {
 	} else {
 		c.Missing(rule, "sm2.sm2P256PointAddMixed", "function", "not found")
 	}
-	// ---- IsOnCurve: x^3 + a x + b  vs  y^2
-	if f := c.Fn("sm2", "sm2P256Curve.IsOnCurve"); f != nil {
-		env := &feEnv{f: f, vars: map[string]string{}}
-		ops := env.ops()
-		// the return compares ToBig(&lhs) with ToBig(&rhs)
-		var got []poly
-		instrsOf(f, func(_ *ssa.BasicBlock, in ssa.Instruction) {
-			ret, ok := in.(*ssa.Return)
-			if !ok {
-				return
-			}
-			bo, ok := ret.Results[0].(*ssa.BinOp)
-			if !ok || bo.Op != token.EQL {
-				return
-			}
-			_, nm, recv, args, ok := bigMethod(bo.X)
-			if !ok || nm != "Cmp" {
-				return
-			}
-			for _, side := range []ssa.Value{recv, args[0]} {
-				if call, ok := side.(*ssa.Call); ok && call.Call.StaticCallee() != nil && call.Call.StaticCallee().Name() == "sm2P256ToBig" {
-					p, _ := env.valueAt(call.Call.Args[0], call, ops)
-					got = append(got, p)
-				}
-			}
-		})
-		x, y := v("X"), v("Y")
-		want := x.mul(x).mul(x).add(v("curve.a").mul(x), 1).add(v("curve.b"), 1).add(y.mul(y), -1)
-		ok := len(got) == 2 && got[0] != nil && got[1] != nil && (got[0].add(got[1], -1).equal(want) || got[1].add(got[0], -1).equal(want))
-		detail := ""
-		if len(got) == 2 && got[0] != nil && got[1] != nil {
-			detail = "difference of the compared sides is " + got[0].add(got[1], -1).String()
-		}
-		c.Check(ok, rule, fname(f), "membership test is y^2 == x^3 + a x + b", "", "IsOnCurve does not compare y^2 with x^3+ax+b: "+detail, f.Pos())
-		c.Evals += env.Ops
-	} else {
-		c.Missing(rule, "sm2.sm2P256Curve.IsOnCurve", "method", "not found")
-	}
+	c03IsOnCurve(c, rule)
 	// ---- affine conversion: x*zinv^2, y*zinv^3 with zinv = FromBig(ModInverse(ToBig(z), P))
 	if f := c.Fn("sm2", "sm2P256PointToAffine"); f != nil {
 		vars := map[string]string{}
@@ -1152,4 +1115,49 @@ func limbProduct(v ssa.Value) (i, j int, sh int64, ok bool) {
 		return 0, 0, 0, false
 	}
 	return i, j, s1 + s2, true
+}
+
+// c03IsOnCurve: the membership test compares y^2 with x^3 + a x + b (as polynomials over GF(p)). Run under C03, and
+// under C02 and C13, whose "reject a point that is not on the curve" guards are only as good as this test.
+func c03IsOnCurve(c *Ctx, rule string) {
+	getFX(c)
+	v := func(n string) poly { return pVar(n) }
+	// ---- IsOnCurve: x^3 + a x + b  vs  y^2
+	if f := c.Fn("sm2", "sm2P256Curve.IsOnCurve"); f != nil {
+		env := &feEnv{f: f, vars: map[string]string{}}
+		ops := env.ops()
+		// the return compares ToBig(&lhs) with ToBig(&rhs)
+		var got []poly
+		instrsOf(f, func(_ *ssa.BasicBlock, in ssa.Instruction) {
+			ret, ok := in.(*ssa.Return)
+			if !ok {
+				return
+			}
+			bo, ok := ret.Results[0].(*ssa.BinOp)
+			if !ok || bo.Op != token.EQL {
+				return
+			}
+			_, nm, recv, args, ok := bigMethod(bo.X)
+			if !ok || nm != "Cmp" {
+				return
+			}
+			for _, side := range []ssa.Value{recv, args[0]} {
+				if call, ok := side.(*ssa.Call); ok && call.Call.StaticCallee() != nil && call.Call.StaticCallee().Name() == "sm2P256ToBig" {
+					p, _ := env.valueAt(call.Call.Args[0], call, ops)
+					got = append(got, p)
+				}
+			}
+		})
+		x, y := v("X"), v("Y")
+		want := x.mul(x).mul(x).add(v("curve.a").mul(x), 1).add(v("curve.b"), 1).add(y.mul(y), -1)
+		ok := len(got) == 2 && got[0] != nil && got[1] != nil && (got[0].add(got[1], -1).equal(want) || got[1].add(got[0], -1).equal(want))
+		detail := ""
+		if len(got) == 2 && got[0] != nil && got[1] != nil {
+			detail = "difference of the compared sides is " + got[0].add(got[1], -1).String()
+		}
+		c.Check(ok, rule, fname(f), "membership test is y^2 == x^3 + a x + b", "", "IsOnCurve does not compare y^2 with x^3+ax+b: "+detail, f.Pos())
+		c.Evals += env.Ops
+	} else {
+		c.Missing(rule, "sm2.sm2P256Curve.IsOnCurve", "method", "not found")
+	}
 }
